@@ -328,6 +328,7 @@ def impl_(case):
         obs['out'] = p.doprint(e)
     except Exception as ex:
         obs['out'] = 'err:' + type(ex).__name__
+        obs['msg'] = str(ex)[:160]
     # the tree after the secondary-trig rewriting doprint() performs first (sympy's `optimize`, rebuilding parents)
     try:
         from sympy.codegen.rewriting import optimize
@@ -375,6 +376,8 @@ def oracle_(case, obs):
             return []
         if out != 'err:ValueError':
             return [{'key': 'wrong-exception', 'detail': '%s raised by doprint for %s' % (out, sx(t))}]
+        if not why and any(c in obs.get('msg', '') for c in NONFINITE):
+            return []   # SymPy's own re-evaluation inside _print_Mul (k*r, Pow(b, 1)) met a pole or a complex value
         if not why:
             return [{'key': 'rejects-supported', 'detail': 'ValueError for a supported expression %s' % sx(t)}]
         if all(w in EXTRA for w in why):
@@ -433,6 +436,9 @@ def oracle_(case, obs):
 PRINTABLE1 = ['Abs', 'acos', 'acosh', 'asin', 'asinh', 'atan', 'atanh', 'ceiling', 'cos', 'cosh', 'exp', 'expm1',
               'factorial', 'floor', 'log', 'log10', 'log1p', 'log2', 'sin', 'sinh', 'tan', 'tanh']
 EXTRA = ['sec', 'csc', 'cot', 'sech', 'csch', 'coth', 'asec', 'acsc', 'acot', 'asech', 'acsch', 'acoth']
+
+
+NONFINITE = ('ComplexInfinity', 'NaN', 'Infinity', 'ImaginaryUnit')
 
 
 def walk_printed(t):
